@@ -202,6 +202,22 @@ def gen_cases(rng, tier):
             if rng.random() < 0.5:
                 arms = [arms[1], arms[0], arms[2]]
             out.append(("cond", X.condpat(rng.choice([target, v2]), arms)))
+    # enumerated core: [p1..pk, ...r, q1..qm] against arrays of every length around k+m (too short, exact, longer)
+    for k in range(0, 3):
+        for m in range(0, 3):
+            for n in range(0, 5):
+                if n < k + m - 2:
+                    continue
+                pre = [X.item(X.pvar("a%d" % i)) for i in range(k)]
+                suf = [X.item(X.pvar("b%d" % i)) for i in range(m)]
+                p = X.parr(pre + [X.extra("r")] + suf)
+                names_ = ["a%d" % i for i in range(k)] + ["r"] + ["b%d" % i for i in range(m)]
+                body = X.tup([(x, X.var(x)) for x in names_])
+                target = X.arr([N(10 + i) for i in range(n)])
+                if (k + m + n) % 2:
+                    out.append(("rest core", X.let(p, target, body)))
+                else:
+                    out.append(("rest core", X.condpat(target, [(p, body), (X.pwild(), N(0))])))
     # committed probes
     out += [("probe", X.let(X.parr([X.item(X.pvar("x")), X.item(X.pvar("x"))]), X.arr([N(1), X.string("1")]), X.var("x"))),
             ("probe", X.let(X.parr([X.item(X.pvar("a")), X.item(X.pvar("b"))]), X.arr([N(1), N(2)], 1), X.var("a"))),
@@ -227,7 +243,7 @@ def main(tier, seed, replay=None):
         if (outs.get(c["id"]) or {}).get("st") == "ok":
             nmatch += 1
     evalcheck.stats(run, cases, outs, codes,
-                    "random nested values (arrays, tuples, dicts, sets, numbers, strings) and patterns derived from them (names incl. repeated ones, _, literal and (expr) patterns, nested array/tuple/dict/set patterns (set patterns: literals with ...rest, literals with one name and exactly one / two or more members left over, literals only), ...rest at any position, trailing fallbacks) matched against the value itself or a near-miss of it (one extra / missing element, offset, hole, one component changed, wrong kind) in `let P = V; (names)`, `(\\\\P body)(V)` and `cond V {P1:.., P2:.., _:0}`",
+                    "random nested values (arrays, tuples, dicts, sets, numbers, strings) and patterns derived from them (names incl. repeated ones, _, literal and (expr) patterns, nested array/tuple/dict/set patterns (set patterns: literals with ...rest, literals with one name and exactly one / two or more members left over, literals only), ...rest at any position, trailing fallbacks) an enumerated core of [p1..pk, ...r, q1..qm] (k, m <= 2) against arrays of every length from two short to longer; matched against the value itself or a near-miss of it (one extra / missing element, offset, hole, one component changed, wrong kind) in `let P = V; (names)`, `(\\\\P body)(V)` and `cond V {P1:.., P2:.., _:0}`",
                     {"form_histogram": kinds, "programs_that_matched": nmatch, "exhaustive": False})
     run.assumptions = ["patterns with more than one of (...rest | fallback) per level are rejected by the implementation as 'non-deterministic' and are not generated"]
     return run.finish(proof)
